@@ -2,6 +2,8 @@
 import math
 import random
 
+from drivers.labels import cont_mode, seq1, seq2
+
 
 def _x6(sol):
     return [int(round(v * 1000000)) for v in sol]
@@ -65,9 +67,10 @@ def run_milp(case, A_obj=None):
         events.append({"e": "start", "minimize": minimize})
         _verif.start()
         try:
-            r = solve_milp(list(map(float, c)) if case.get("floats") else list(c),
-                           A_obj if A_obj is not None else [list(map(float, row)) if case.get("floats") else list(row) for row in A],
-                           list(b), [j - 1 for j in ints], minimize=minimize, **kw)
+            cm = cont_mode(case)
+            r = solve_milp(seq1(list(map(float, c)) if case.get("floats") else list(c), cm),
+                           A_obj if A_obj is not None else seq2([list(map(float, row)) if case.get("floats") else list(row) for row in A], cm),
+                           seq1(b, cm), seq1([j - 1 for j in ints], cm), minimize=minimize, **kw)
             ev = {"e": "ret", "status": r.status.name, "minimize": minimize, "finite": True, "x": [0] * n, "obj6": 0, "sols": [], "cfg": str(cfg)}
             if r.solution is not None:
                 vals = list(r.solution) + [float(r.objective)] + [v for s in (r.solutions or ()) for v in s]
